@@ -1,6 +1,9 @@
 package main
 
-import "strings"
+import (
+	"regexp"
+	"strings"
+)
 
 // An exhaustive enumeration turns one root cause into a very large number of failing cases.
 // capFail reports at most failCap failures per (class, tags) group and worker process; the
@@ -12,6 +15,7 @@ const failCap = 40
 var failSeen = map[string]int{}
 
 func capFail(r *Result, class string, tags []string, cas, detail string) {
+	class = stableClass(class)
 	k := class + "\x00" + strings.Join(tags, ",")
 	failSeen[k]++
 	if failSeen[k] > failCap {
@@ -23,4 +27,16 @@ func capFail(r *Result, class string, tags []string, cas, detail string) {
 		return
 	}
 	r.Fail(class, tags, cas, detail)
+}
+
+var rePtr = regexp.MustCompile(`#x[0-9a-f#]+`)
+
+// stableClass removes what is left of pointer values in a (digit-normalised) crash class so
+// that the class is the same in every process.
+func stableClass(c string) string {
+	// the interpreter's "variable not found" panic dumps its scope maps (pointers, map order)
+	if i := strings.Index(c, " | ModuleName:"); i >= 0 {
+		c = c[:i]
+	}
+	return rePtr.ReplaceAllString(c, "<ptr>")
 }
